@@ -58,7 +58,7 @@ def get_expectation_value_from_frequencies_oneterm(term, frequencies):
     """
 
     if not frequencies.keys():
-        return ValueError("Must pass a non-empty dictionary of frequencies.")
+        raise ValueError("Must pass a non-empty dictionary of frequencies.")
     n_qubits = len(list(frequencies.keys())[0])
 
     # Get term mask
@@ -90,7 +90,7 @@ def get_variance_from_frequencies_oneterm(term, frequencies):
     """
 
     if not frequencies.keys():
-        return ValueError("Must pass a non-empty dictionary of frequencies.")
+        raise ValueError("Must pass a non-empty dictionary of frequencies.")
     n_qubits = len(list(frequencies.keys())[0])
 
     # Get term mask
